@@ -24,17 +24,27 @@ EXTENDS Grammar, TLC, Json, IOUtils
 Trace == ndJsonDeserialize(IOEnv.VERIF_TRACE)
 WantSpans == "VERIF_SPANS" \in DOMAIN IOEnv /\ IOEnv.VERIF_SPANS = "1"
 
-ErrKind(T, i) ==
-  IF i > Len(T) THEN "eof"
-  ELSE CASE T[i].t = "invalid" -> "invalid"
-         [] T[i].t = "badescape" -> "escape"
-         [] T[i].t = "unterminated" -> "unterminated"
-         [] OTHER -> "unexpected"
+\* the token the parse error is reported at (the lexer's last token when the parser looked past it)
+ErrTok(T, i) == IF i >= Len(T) THEN T[Len(T)] ELSE T[i]
+ErrKind(tk) ==
+  CASE tk.t = "invalid" -> "invalid"
+    [] tk.t = "badescape" -> "escape"
+    [] tk.t = "unterminated" -> "unterminated"
+    [] tk.t = "eof" /\ tk.x = "" -> "eof"
+    [] OTHER -> "unexpected"
 
 Has(rec, f) == f \in DOMAIN rec
+NTok(T) == IF T[Len(T)].t = "eof" THEN Len(T) - 1 ELSE Len(T)
+
+\* VERIF_MODE=vars: only the token comparison of the re-spacings (the texts themselves were validated before)
+VarsOnly == "VERIF_MODE" \in DOMAIN IOEnv /\ IOEnv.VERIF_MODE = "vars"
+VarsVerdict(rec) ==
+  LET T == TokKeys(Lex(rec.srcB)) IN
+  [id |-> rec.id, v |-> "vars", vars |-> [j \in 1..Len(rec.vars) |-> TokKeys(Lex(rec.vars[j].b)) = T]]
 
 RecVerdict(rec) ==
   IF Has(rec, "panic") \/ ~Has(rec, "srcB") THEN [id |-> rec.id, v |-> "panic"]
+  ELSE IF VarsOnly THEN VarsVerdict(rec)
   ELSE
     LET src == rec.srcB
         T == Lex(src)
@@ -44,7 +54,7 @@ RecVerdict(rec) ==
                  vars |-> IF Has(rec, "vars")
                           THEN [j \in 1..Len(rec.vars) |-> TokKeys(Lex(rec.vars[j].b)) = TokKeys(T)]
                           ELSE <<>>,
-                 spans |-> IF WantSpans THEN [j \in 1..Len(T) |-> <<T[j].b, T[j].e>>] ELSE <<>>]
+                 spans |-> IF WantSpans THEN [j \in 1..NTok(T) |-> <<T[j].b, T[j].e>>] ELSE <<>>]
     IN IF p.ok THEN
          LET pr == PrintQ(p.n)
              srt == (LET r == Parse(pr) IN r.ok /\ r.n = p.n)
@@ -56,8 +66,8 @@ RecVerdict(rec) ==
          IN
          base @@ [ast |-> IF Has(rec, "ast") THEN rec.ast = p.n ELSE TRUE,
                   pr |-> IF Has(rec, "printed") THEN rec.printed = pr ELSE TRUE,
-                  srt |-> srt, fix |-> fix, ntok |-> Len(T)]
-       ELSE base @@ [ek |-> ErrKind(T, p.i), eo |-> IF p.i > Len(T) THEN -1 ELSE T[p.i].e, ntok |-> Len(T)]
+                  srt |-> srt, fix |-> fix, ntok |-> NTok(T)]
+       ELSE base @@ [ek |-> ErrKind(ErrTok(T, p.i)), eo |-> ErrTok(T, p.i).e, ntok |-> NTok(T)]
 
 \* The verdicts are computed and written while TLC computes the (single) initial state.
 VARIABLE done
